@@ -273,6 +273,20 @@ def run_oracles(prog, meta, sessions):
         nodes = P.parse_dump(s.dump)
         if '!MAPS' in nodes or '!BAD' in nodes:
             out.append(('C15', 'store-maps', '%s: store key maps inconsistent with the graph' % where))
+        # every dependency in the store was recorded by an execution of its owner that the tracker saw (the shadow bookkeeping is
+        # rebuilt from the event stream alone): an edge nobody recorded -- e.g. a require attributed to a task that is not executing --
+        # makes later builds abort or skip a diagnosis
+        if '!BAD' not in nodes:
+            for name, nd in nodes.items():
+                if not name.startswith('T') or not name[1:].isdigit(): continue
+                t = int(name[1:])
+                for (k, tgt, _c, _st) in nd['outs']:
+                    bad = False
+                    if k in ('Q', 'V') and tgt[1:].isdigit(): bad = int(tgt[1:]) not in shadow.req.get(t, [])
+                    elif k == 'R': bad = tgt[1:] not in shadow.reads.get(t, set())
+                    elif k == 'W': bad = tgt[1:] not in shadow.writes.get(t, set())
+                    if bad:
+                        out.append(('C19' if (had_abort or ab) else 'C08', 'phantom-dependency', '%s: the store holds a %s dependency %s -> %s that no execution of %s recorded (tracker stream)' % (where, {'Q': 'require', 'V': 'reserved require', 'R': 'read', 'W': 'write'}[k], name, tgt, name)))
         if not ab:
             for name, nd in nodes.items():
                 if not name.startswith('R'): continue
